@@ -42,4 +42,14 @@ PROPS = {
         "assumptions": COMMON_ASSUME + ["the refinement theorem is for tags without ':' (the reference grammar) and layouts with at most one entry per tag; frame and removes-all theorems hold for ANY index incl. foreign ones",
                     "linearizability of concurrent operations rests on o.mu serialising every index read-modify-write; checked by concurrent pushes on the implementation, not proved"],
     },
+    "C12": {
+        "props": "Props/C12.v", "corr": ["Corr/C12.v"], "gen": ["reqsites", "statusclass"],
+        "gen_theorems": ["C12_writes_skip_mirrors over Gen/ReqSites.v", "classify / C12_transient_codes over Gen/StatusClass.v"],
+        "trusted": ["model of the host loop of reghttp.Resp.next (Model/C12_Retry.v); time, sleeps and the HTTP client are not modelled",
+                    "translator extract/reqsites.go: reghttp.Req composite literals under scheme/reg (Method, NoMirrors, DirectURL, IgnoreErr) and the switch statusCode of Resp.next",
+                    "memreg/memrt multi-host topology in the harness"],
+        "assumptions": COMMON_ASSUME + ["the backoff delay (>= configured / Retry-After) is exercised only through real sleeps of 1-4 ms; lower bounds on gaps are not asserted in quick runs",
+                    "the documented host order (highest priority first) is refuted for the comparator as coded: known finding F-C12a",
+                    "upload-session progress (chunked PATCH loop) is covered under C05"],
+    },
 }
